@@ -388,6 +388,26 @@ def value_obj(v: dict):
     if k == "none":
         return None
     if k == "other":
+        # what sits at a position dltype has nothing to say about: any Python object, iterable and tuple-valued ones included
+        a = v.get("as")
+        if a == "tuple":
+            return (1, 2)
+        if a == "empty":
+            return ()
+        if a == "size":
+            return torch.Size([2, 3])
+        if a == "shape":
+            return np.zeros((2, 3)).shape
+        if a == "record":
+            import collections
+
+            return collections.namedtuple("Pt", ["u", "v"])(1, 2)
+        if a == "str":
+            return "ab"
+        if a == "list":
+            return [np.zeros((2,)), 3]
+        if a == "nested":
+            return (np.zeros((5, 5)), (np.zeros((7,)),))
         return _Other()
     if k == "tup":
         elts = tuple(value_obj(x) for x in v["elts"])
@@ -522,6 +542,25 @@ def run_fn_case(case: dict) -> dict:
     pos = [args[n] for n in case.get("positional", [])]
     kw = {k: v for k, v in args.items() if k not in case.get("positional", [])}
     out: dict
+    warm = case.get("warmup")
+    if warm is not None and not identity:
+        # an earlier call of the SAME decorated function (other argument values, other provider values, other result); whatever
+        # it did, the measured call below is its own context and must come out as if it were the first (C09)
+        if isinstance(provider_obj, Provider) and warm.get("scope") is not None:
+            provider_obj.scope = dict(warm["scope"])
+        wargs = {k: value_obj(v) for k, v in warm["args"].items()}
+        keep = retbox[0]
+        if warm.get("retval") is not None:
+            retbox[0] = value_obj(warm["retval"])
+        try:
+            target(*[wargs[n] for n in case.get("positional", [])], **{k: v for k, v in wargs.items() if k not in case.get("positional", [])})
+        except BaseException:  # noqa: BLE001, S110
+            pass
+        retbox[0] = keep
+        log.clear()
+        if isinstance(provider_obj, Provider):
+            provider_obj.scope = dict(prov["scope"])
+            provider_obj.calls = 0
     # top-level jax arguments marked how == "jit" are handed over as tracers: the whole checked call is traced
     traced = [k for k, v in case["args"].items() if isinstance(v, dict) and v.get("k") == "arr" and v.get("lib") == "jax" and v.get("how") == "jit"
               and k not in case.get("positional", [])]
